@@ -133,7 +133,8 @@ func c01(r *core.Run) {
 	r.Rule("C01/R2", "the prove callee returns nil only under merkle-library verification = true; the chunk index handed to the verifier ⊵ Store(FileProof).ChunkToProve and ⋫ msg.ToProve; the root ⊵ the stored file's Merkle")
 	r.Rule("C01/R3", "challenge match: every write of the handler is behind Eq(msg.ToProve, Store(FileProof).ChunkToProve)=true")
 	r.Rule("C01/R4", "who-may-write: the only transaction/block entry points that can Set a FileProof record are storage.MsgPostProof and storage.MsgAttest")
-	r.Rule("C01/R5", "crediting: the reward size tracker is keyed only by the Prover of a FileProof record loaded for a key taken from the file's Proofs list")
+	r.Rule("C01/R7", "the window a proof is judged by is the governance-set one: on transaction / block paths UnifiedFile.ProofInterval is assigned the storage parameter ProofWindow and nothing else (a file with an uploader-chosen interval keeps its provers credited without further proofs)")
+	r.Rule("C01/R5", "crediting: the reward size tracker is keyed only by the Prover of a FileProof record loaded for a key taken from the file's Proofs list — the processed file's own list or a per-file copy of exactly its length")
 	heightDimensions(r, "C01/R6", moduleFuncs(p, "storage"), 8)
 	hs, err := p.Handlers()
 	if err != nil {
@@ -264,5 +265,17 @@ func c01(r *core.Run) {
 		}
 	}
 	r.Floor("C01/R5", n5, 1, "reward credit sites")
+	if reachTx, errTx := p.TxReachable(); errTx == nil {
+		r.Floor("C01/R7", fieldOnlyFromParam(r, "C01/R7", "x/storage/types.UnifiedFile", "ProofInterval", "storage", "ProofWindow", reachTx), 1, "assignments of UnifiedFile.ProofInterval")
+	}
+	// ... and that key list is the processed file's own prover list (not a buffer that outlives the file)
+	for _, fn := range bb {
+		if core.ModuleOf(fn) != "storage" {
+			continue
+		}
+		if unit := perProofUnit(p, p.Summary(fn).Funcs); unit.Routine != nil && unit.CreditFn != nil {
+			perProofKeysFromFileList(r, "C01/R5", unit.Routine)
+		}
+	}
 	_ = fmt.Sprint
 }
